@@ -9,9 +9,11 @@ import (
 	"io"
 	real "net"
 	"os"
+	"runtime"
 	"strconv"
 	"syscall"
 	"time"
+	"weak"
 
 	"sonicverif/sim"
 )
@@ -98,10 +100,60 @@ func (ifi *Interface) MulticastAddrs() ([]real.Addr, error) { return nil, nil }
 
 // SimConn is the stub for the *net.TCPConn Go's dialer returns.
 type SimConn struct {
+	fd    int
+	st    *connState
+	laddr *real.TCPAddr
+	raddr *real.TCPAddr
+}
+
+// connState outlives the conn: it is what the runtime's finalizer would act on.
+type connState struct {
 	fd     int
 	closed bool
-	laddr  *real.TCPAddr
-	raddr  *real.TCPAddr
+}
+
+type connEntry struct {
+	wp weak.Pointer[SimConn]
+	st *connState
+}
+
+var registry []connEntry
+
+// ResetRegistry forgets every conn of previous runs.
+func ResetRegistry() { registry = nil }
+
+// CollectGarbage runs the collector and then does what the runtime's
+// finalizer does for every conn that became unreachable without having been
+// closed: it closes the descriptor NUMBER the conn was created with - whatever
+// that number refers to by now. Returns how many finalizers ran.
+func CollectGarbage() int {
+	runtime.GC()
+	runtime.GC()
+	n := 0
+	for i := range registry {
+		e := &registry[i]
+		if e.st.closed || e.wp.Value() != nil {
+			continue
+		}
+		e.st.closed = true
+		n++
+		if w := sim.Cur(); w != nil {
+			w.Tracef("finalizer closes fd %d of a collected conn", e.st.fd)
+			w.K.Close(e.st.fd)
+		}
+	}
+	return n
+}
+
+// LiveUnclosed counts conns that are still reachable and not closed.
+func LiveUnclosed() int {
+	n := 0
+	for _, e := range registry {
+		if !e.st.closed && e.wp.Value() != nil {
+			n++
+		}
+	}
+	return n
 }
 
 func DialTimeout(network, address string, timeout time.Duration) (real.Conn, error) {
@@ -158,7 +210,8 @@ func DialTimeout(network, address string, timeout time.Duration) (real.Conn, err
 			return nil, opErr(os.NewSyscallError("connect", syscall.Errno(soerr)))
 		}
 	}
-	c := &SimConn{fd: fd}
+	c := &SimConn{fd: fd, st: &connState{fd: fd}}
+	registry = append(registry, connEntry{wp: weak.Make(c), st: c.st})
 	lip, lport, _ := k.Getsockname(fd)
 	c.laddr = &real.TCPAddr{IP: real.IPv4(lip[0], lip[1], lip[2], lip[3]), Port: lport}
 	c.raddr = &real.TCPAddr{IP: real.IPv4(ip4[0], ip4[1], ip4[2], ip4[3]), Port: port}
@@ -180,7 +233,7 @@ func (c *SimConn) Read(p []byte) (int, error) {
 		return 0, nil
 	}
 	for {
-		if c.closed {
+		if c.st.closed {
 			return 0, c.opErr("read", real.ErrClosed)
 		}
 		n, e := k.Read(c.fd, p)
@@ -188,7 +241,7 @@ func (c *SimConn) Read(p []byte) (int, error) {
 		case e == syscall.EAGAIN:
 			fd := c.fd
 			w.Block("conn.Read", func() bool {
-				if c.closed {
+				if c.st.closed {
 					return true
 				}
 				rr, _, _ := k.SelectNoYield([]int{fd}, nil)
@@ -211,7 +264,7 @@ func (c *SimConn) Write(p []byte) (int, error) {
 	k := w.K
 	done := 0
 	for done < len(p) {
-		if c.closed {
+		if c.st.closed {
 			return done, c.opErr("write", real.ErrClosed)
 		}
 		n, e := k.Write(c.fd, p[done:])
@@ -219,7 +272,7 @@ func (c *SimConn) Write(p []byte) (int, error) {
 		case e == syscall.EAGAIN:
 			fd := c.fd
 			w.Block("conn.Write", func() bool {
-				if c.closed {
+				if c.st.closed {
 					return true
 				}
 				_, wr, _ := k.SelectNoYield(nil, []int{fd})
@@ -239,10 +292,10 @@ func (c *SimConn) Write(p []byte) (int, error) {
 // Close closes the descriptor number the conn was created with, as
 // poll.FD.destroy does - whatever that number refers to by now.
 func (c *SimConn) Close() error {
-	if c.closed {
+	if c.st.closed {
 		return c.opErr("close", real.ErrClosed)
 	}
-	c.closed = true
+	c.st.closed = true
 	if e := world().K.Close(c.fd); e != 0 {
 		return c.opErr("close", os.NewSyscallError("close", e))
 	}
@@ -251,12 +304,12 @@ func (c *SimConn) Close() error {
 
 // Finalize is what the runtime does when an unclosed conn is collected.
 func (c *SimConn) Finalize() {
-	if !c.closed {
+	if !c.st.closed {
 		_ = c.Close()
 	}
 }
 
-func (c *SimConn) Closed() bool                       { return c.closed }
+func (c *SimConn) Closed() bool                       { return c.st.closed }
 func (c *SimConn) LocalAddr() real.Addr               { return c.laddr }
 func (c *SimConn) RemoteAddr() real.Addr              { return c.raddr }
 func (c *SimConn) SetDeadline(t time.Time) error      { return nil }
@@ -266,14 +319,14 @@ func (c *SimConn) SetWriteDeadline(t time.Time) error { return nil }
 type rawConn struct{ c *SimConn }
 
 func (c *SimConn) SyscallConn() (syscall.RawConn, error) {
-	if c.closed {
+	if c.st.closed {
 		return nil, c.opErr("raw-control", real.ErrClosed)
 	}
 	return rawConn{c}, nil
 }
 
 func (r rawConn) Control(f func(fd uintptr)) error {
-	if r.c.closed {
+	if r.c.st.closed {
 		return r.c.opErr("raw-control", real.ErrClosed)
 	}
 	f(uintptr(r.c.fd))
